@@ -309,7 +309,13 @@ fn judge_at(c: &Case, h: &[u8], stream: &Vec<u8>, st: &mut Stats) -> Verdict {
     // ---- a receiver that reuses ONE read buffer for every connection (examples/server.rs does): the previous
     // connection delivered an unfinished header and hung up; this connection's bytes then arrive in the same buffer
     if stream.len() <= 4096 {
-        let prev: Vec<u8> = PREVIOUS.with(|p| p.borrow().clone());
+        let mut prev: Vec<u8> = PREVIOUS.with(|p| p.borrow().clone());
+        // one time in three the previous connection had sent something that is no header at all: 107..=166 bytes of text
+        // without a line end, judged too long for good - and then hung up
+        if c.split_seed % 3 == 0 {
+            let n = 107 + (c.split_seed as usize / 3) % 60;
+            prev = (0..n).map(|i| b"GET /index.html?q=abcdefghijklmnopqrstuvwxyz0123456789 "[i % 55]).collect();
+        }
         let mut have = 0usize;
         let mut first = true;
         for n in reads(stream.len(), c.split_seed.rotate_left(21)) {
@@ -317,6 +323,7 @@ fn judge_at(c: &Case, h: &[u8], stream: &Vec<u8>, st: &mut Stats) -> Verdict {
             if first {
                 crate::engine::in_arena2(&prev, |v| {
                     let _ = imp::auto(v);
+                    let _ = imp::v1_bytes(v);
                 });
                 first = false;
             }
